@@ -1,6 +1,9 @@
 package checks
 
-import "verif/internal/vc"
+import (
+	"verif/internal/instr"
+	"verif/internal/vc"
+)
 
 // exportLoadingInternalsC16 adds a file to package grog/internal/loading (through
 // the overlay only) that exposes the unexported enrichment step to the harness.
@@ -27,7 +30,7 @@ func init() {
 			"JSON is the reference rendering; YAML/Starlark/Makefile results are compared against it field by field (labels, command, resolved inputs as a set, outputs, bin output, dependencies, tags, fingerprint, platforms, timeout, output checks, environment, aliases); SourceFilePath ignored; nil and empty collections are the same value",
 			"Makefile annotations are compared only on the fields the property statement lists (labels, command `make <goal>`, resolved inputs after excludes, outputs, dependencies, tags, fingerprint, platforms, timeout); docs/build-configuration.mdx says everything between '# @grog' and the goal is the YAML target configuration, so a listed field that is silently dropped is reported as makefile:field-dropped:<field>; environment_variables / bin_output / output_checks in annotations are only counted, not judged",
 			"default_platforms cannot be written in BUILD.star (no builtin sets it): such definitions are not rendered to Starlark (counted as starlark_inexpressible)",
-			"the full controlled-scheduler exploration of walk order / worker interleavings (design part c) is a separate check; here only repeated real runs with several worker counts and both creation orders of the two same-directory BUILD files",
+			"part (c): loading.LoadPackages runs under the controlled scheduler with the directory walker replaced by one that delivers the files in a scheduler-chosen order (any permutation = one deviation); workspaces with three BUILD-defining files in one package (JSON, YAML, Makefile), a duplicate target across files and an alias/target clash across files, 2 and 3 workers, all schedules with <= 2 (quick) / 3 (thorough) deviations: identical verdict and node set in every execution, duplicates rejected in every order, and no access to the shared package map without the common lock (lockset discipline)",
 			"hang ceiling 30 s per loaded file is used only to classify a hang",
 		)
 		ov := vc.NewOverlay()
@@ -36,5 +39,29 @@ func init() {
 			return
 		}
 		simpleHarnessOv(c, ov, "c16", "c16", nil, nil, 16)
+		c16Sched(c)
 	}
+}
+
+// c16Sched: design part (c) — LoadPackages under the controlled scheduler.
+func c16Sched(c *Ctx) {
+	schedFiles["internal/loading/load.go"] = instr.SchedConfig{
+		ChanRanges:    []string{"fileListQueue"},
+		ImportRewrite: map[string]string{"github.com/boyter/gocodewalker": "grog/internal/zverif/vwalker"},
+		Access:        map[string]string{"loadedPackages[": "LoadPackages.loadedPackages", "mergePackages(": "LoadPackages.loadedPackages!w"},
+	}
+	ov := schedOverlay(c, "sched-c16", []string{"internal/loading/load.go"}, []string{"vwalker", "c16sched"})
+	if ov == nil {
+		return
+	}
+	bin, err := vc.BuildHarnessTest("c16sched", ov, "c16sched", false)
+	if err != nil {
+		c.R.BrokenCheck("%v", err)
+		return
+	}
+	bound, budget := "2", "25"
+	if c.Thorough {
+		bound, budget = "3", "300"
+	}
+	vc.RunHarnessShards(c.R, vc.HarnessRun{Bin: bin, Env: map[string]string{"VERIF_TIER": c.Tier, "VERIF_BOUND": bound, "VERIF_BUDGET_S": budget, "GOMAXPROCS": "1"}, Tag: "c16sched"}, 8, 8)
 }
